@@ -19,7 +19,7 @@ CLAIMED = {
     ),
     "C17": dict(
         category="exploration", design_ref="DESIGN.md 5.5",
-        text="Deterministic simulation of writer life cycles: every body of <= 5 write/flush calls x 6 ways of ending (close, double close, flush+close, with-exit, with-body-raises, exit+close) for 15 writer targets is enumerated, longer histories and split arithmetic (limits 1..7, all residues, suffix lengths) are sampled, and time-templated archiving runs under a simulated clock (same-second bursts, hour/day steps, backward jumps, skewed record stamps, restarts, pre-existing files). Oracle: conservation against the list of acknowledged writes through the library reader and independent decoders, double-close idempotence, split limits / per-part readability / byte concatenation, and 'no rename or open ever replaced an existing file' read off the simulated file system's event log.",
+        text="Deterministic simulation of writer life cycles: every body of <= 5 write/flush calls x 6 ways of ending (close, double close, flush+close, with-exit, with-body-raises, exit+close) for 22 writer targets is enumerated, longer histories and split arithmetic (limits 1..7, all residues, suffix lengths) are sampled, and time-templated archiving runs under a simulated clock (same-second bursts, hour/day steps, backward jumps, skewed record stamps, restarts, pre-existing files). Oracle: conservation against the list of acknowledged writes through the library reader and independent decoders, double-close idempotence, split limits / per-part readability / byte concatenation, and 'no rename or open ever replaced an existing file' read off the simulated file system's event log.",
         note="Trusted: SimFS fidelity (self-tested against the real file system), the independent decoders (gzip/bz2/lz4/zstandard/json/csv/fastavro/sqlite3). Finaliser timing is outside the histories. One known finding (stream writer closed with no records and no flush leaves no header; pinned by an existing test) is listed in KNOWN_FINDINGS.txt.",
         technique="deterministic simulation: bounded-exhaustive call histories per adapter + seeded histories, simulated clock and file system (rename/truncate event log), conservation oracle",
     ),
@@ -31,13 +31,13 @@ CLAIMED = {
     ),
     "C11": dict(
         category="exploration", design_ref="DESIGN.md 5.3",
-        text="Deterministic simulation of how bytes arrive: files written by the library (one or two writers open at once) in every cell of the codec x container matrix are verified with each format's independent decompressor and then read back through nine ways of naming the source; for file objects and standard input the simulator owns the delivery schedule of the raw reads (whole, tiny first chunk, one byte at a time, chunk boundaries inside the codec magic / stream header / Avro magic). The fault-free result is the reference: naming and delivery must not change the records or the reader class. Seeded garbage (incl. magic-prefixed, compressed non-streams and shifted-header near misses) must be refused. The matrix is enumerated, record sequences, schedules and garbage are sampled.",
+        text="Deterministic simulation of how bytes arrive: files written by the library (one or two writers open at once) in every cell of the codec x container matrix are verified with each format's independent decompressor and then read back through 16 ways of naming the source (paths by extension or neutral, URIs, BytesIO and BufferedReader incl. non-zero offsets, bare raw objects, stdin in four forms, a FIFO, a zip member); for file objects and standard input the simulator owns the delivery schedule of the raw reads (whole, tiny first chunk, one byte at a time, chunk boundaries inside the codec magic / stream header / Avro magic). The fault-free result is the reference: naming and delivery must not change the records or the reader class. Seeded garbage (incl. magic-prefixed, compressed non-streams and shifted-header near misses) must be refused. The matrix is enumerated, record sequences, schedules and garbage are sampled.",
         note="Trusted: gzip/bz2/lz4/zstandard/fastavro as independent decoders. Short raw reads are applied to pipes-like sources (file objects, stdin) only. One known finding (single-shot peek on a short first raw read) is listed in KNOWN_FINDINGS.txt and matched counterfactually.",
         technique="deterministic simulation: seeded pipe/stdin delivery schedules over an exhaustive codec x container x naming matrix, fault-free run as reference model",
     ),
     "C16": dict(
         category="exploration", design_ref="DESIGN.md 5.4",
-        text="Deterministic simulation of the command-line tool: rdump.main runs in-process against sources on a simulated file system, each with its own fault (missing, empty, garbage, directory, truncated at a frame-relative offset, raw read error at call j, unreadable JSON line, stdin with a delivery schedule), and its output (stdout or -w targets in 15 forms incl. --split) is decoded independently and compared, in order, with a reference pipeline over lists: intact prefix per source -> selector predicate -> skip/count slice -> metadata overrides -> projection/exclusion -> timestamp expansion. Every placement of one or two faulty sources among two good ones is enumerated; option mixes, codecs and record sequences are sampled; compiled and interpreted selectors are both driven.",
+        text="Deterministic simulation of the command-line tool: rdump.main runs in-process against sources on a simulated file system, each with its own fault (missing, empty, garbage, directory, truncated at a frame-relative offset, raw read error at call j, unreadable JSON line, stdin with a delivery schedule), and its output (stdout or -w targets in 16 forms incl. --split) is decoded independently and compared, in order, with a reference pipeline over lists: intact prefix per source -> selector predicate -> skip/count slice -> metadata overrides -> projection/exclusion -> timestamp expansion. Every placement of one or two faulty sources among two good ones is enumerated; option mixes, codecs and record sequences are sampled; compiled and interpreted selectors are both driven.",
         note="Trusted: the reference pipeline (a few lines over lists) and the independent decoders (json, csv, line/text parsing). Selectors are limited to a sub-language with Python predicates; -c 0, duplicate -F names, Avro/SQLite targets and metadata of expanded records are outside the domain.",
         technique="deterministic simulation: in-process rdump over fault-injected simulated sources and stdio, enumerated fault placements + seeded option mixes, reference list pipeline as oracle",
     ),
